@@ -33,6 +33,10 @@ type ConstV struct {
 	Name string
 }
 type SliceV struct{ Elems []Val }
+type MapV struct {
+	Keys []Val
+	Vals []Val
+}
 type StrV string
 
 // DT: abstract ddptypes.Type
@@ -414,7 +418,7 @@ func eqVal(a, b Val) (bool, bool) {
 			return true, true
 		case Unk:
 			return false, false
-		case *Obj, *GenT, TypeV, *IRVal, Closure, FuncRef, *IRFuncV, ConstV, StrV:
+		case *Obj, *GenT, TypeV, *IRVal, Closure, FuncRef, *IRFuncV, ConstV, StrV, SliceV, MapV:
 			_ = y
 			return false, true
 		}
@@ -465,7 +469,7 @@ func eqVal(a, b Val) (bool, bool) {
 		if y, ok := b.(*IRFuncV); ok {
 			return x.Name == y.Name, true
 		}
-	case Closure, FuncRef:
+	case Closure, FuncRef, SliceV, MapV:
 		if _, ok := b.(NilV); ok {
 			return false, true
 		}
@@ -659,6 +663,31 @@ func (in *Interp) exec(pkg *packages.Package, env *Env, s ast.Stmt) ctl {
 		return in.execTypeSwitch(pkg, env, st)
 	case *ast.RangeStmt:
 		xv := in.eval(pkg, env, st.X)
+		if mv, isMap := xv.(MapV); isMap {
+			for i := range mv.Keys {
+				e2 := newEnv(env)
+				if id, ok := st.Key.(*ast.Ident); ok && id.Name != "_" {
+					if o := info.Defs[id]; o != nil {
+						e2.define(o, mv.Keys[i])
+					}
+				}
+				if st.Value != nil {
+					if id, ok := st.Value.(*ast.Ident); ok && id.Name != "_" {
+						if o := info.Defs[id]; o != nil {
+							e2.define(o, mv.Vals[i])
+						}
+					}
+				}
+				c := in.execBlock(pkg, e2, st.Body.List)
+				if c == ctlBreak {
+					return ctlNone
+				}
+				if c == ctlReturn || c == ctlAbort {
+					return c
+				}
+			}
+			return ctlNone
+		}
 		sl, ok := xv.(SliceV)
 		if !ok {
 			// unknown collection: the body may run any number of times; evaluate it once under a fork, effects only
@@ -909,7 +938,17 @@ func (in *Interp) hasDynType(v Val, t types.Type, isNilCase bool) (bool, bool) {
 		return false, true
 	case *Obj:
 		if strings.HasPrefix(x.Kind, "ast.") {
-			return "*"+x.Kind == name, true
+			if "*"+x.Kind == name {
+				return true, true
+			}
+			if iface, ok := t.Underlying().(*types.Interface); ok {
+				if ap := in.L.ByRel["src/ast"]; ap != nil {
+					if o := ap.Types.Scope().Lookup(strings.TrimPrefix(x.Kind, "ast.")); o != nil {
+						return types.Implements(types.NewPointer(o.Type()), iface), true
+					}
+				}
+			}
+			return false, true
 		}
 	case NilV:
 		return false, true
@@ -1119,6 +1158,14 @@ func (in *Interp) eval(pkg *packages.Package, env *Env, e ast.Expr) Val {
 				}
 			}
 		}
+		if mv, ok := base.(MapV); ok {
+			for i, k := range mv.Keys {
+				if t, known := eqVal(k, idx); known && t {
+					return mv.Vals[i]
+				}
+			}
+			return Unk{"map miss"}
+		}
 		// c.functions["pow"] etc.
 		if s, ok := idx.(StrV); ok {
 			if sel, ok := ast.Unparen(x.X).(*ast.SelectorExpr); ok && sel.Sel.Name == "functions" {
@@ -1129,6 +1176,24 @@ func (in *Interp) eval(pkg *packages.Package, env *Env, e ast.Expr) Val {
 		}
 		return Unk{"index"}
 	case *ast.SliceExpr:
+		if sl, ok := in.eval(pkg, env, x.X).(SliceV); ok {
+			lo, hi := 0, len(sl.Elems)
+			get := func(e ast.Expr, def int) int {
+				if e == nil {
+					return def
+				}
+				if c, ok := in.eval(pkg, env, e).(ConstV); ok && c.V != nil {
+					if i, ok := constant.Int64Val(c.V); ok {
+						return int(i)
+					}
+				}
+				return -1
+			}
+			lo, hi = get(x.Low, lo), get(x.High, hi)
+			if lo >= 0 && hi >= lo && hi <= len(sl.Elems) {
+				return SliceV{Elems: sl.Elems[lo:hi]}
+			}
+		}
 		return Unk{"slice"}
 	case *ast.KeyValueExpr:
 		return in.eval(pkg, env, x.Value)
